@@ -49,6 +49,7 @@ void v_violation(const char *prop, const char *key, const char *witness_json, co
 /* coverage feature of the current case */
 void v_feature(const char *prop, int nontrivial, const char *fmt, ...) __attribute__((format(printf, 3, 4)));
 void v_count(const char *prop, const char *name, int64_t v);
+void v_count_flush(void);
 void v_sample(const char *prop, const char *json);
 void v_note(const char *prop, const char *fmt, ...) __attribute__((format(printf, 2, 3)));
 int v_violation_count(void);
